@@ -107,7 +107,7 @@ Depth3Twice(d) ==
                mid  |-> Ch(<<Dep("leaf", "g1", <<<<"g1", "en">>>>, NoT), Dep("leaf", "", <<<<"leaf", "en">>>>, <<"t1">>)>>),
                oth |-> Ch(<<>>), leaf |-> Ch(<<>>)],
    slots |-> <<Slot("user", <<"mid", "en">>, d), Slot("user", <<"mid", "g1", "en">>, d), Slot("mid", <<"leaf", "en">>, d),
-               Slot("user", <<"tags", "t1">>, d), Slot("mid", <<"g1", "a">>, <<Abs, Sc("s:mg")>>)>>]
+               Slot("leaf", <<"en">>, d), Slot("user", <<"tags", "t1">>, d), Slot("mid", <<"g1", "a">>, <<Abs, Sc("s:mg")>>)>>]
 
 (* --- scoping: globals at every level, own values, siblings ---------------------- *)
 
@@ -133,6 +133,16 @@ ScopeOwn ==
                Slot("user", <<"oth", "a">>, G2("s:uo")), Slot("oth", <<"a">>, G2("s:o")),
                Slot("oth", <<"global", "a">>, G2("s:og"))>>]
 
+\* charts without any default of their own (their section may hold nothing but the injected global table)
+ScopeBare ==
+  [name |-> "sb", fixed |-> <<Fix("root", <<"b">>, "s:root")>>,
+   charts |-> [root |-> Ch(<<Dep("mid", "", NoC, NoT), Dep("oth", "", NoC, NoT)>>),
+               mid |-> Ch(<<Dep("leaf", "", NoC, NoT)>>), oth |-> Ch(<<>>), leaf |-> Ch(<<>>)],
+   slots |-> <<Slot("user", <<"a">>, G2("s:u")), Slot("user", <<"mid", "a">>, G2("s:um")), Slot("mid", <<"a">>, G2("s:m")),
+               Slot("mid", <<"leaf", "a">>, G2("s:ml")), Slot("leaf", <<"a">>, G2("s:l")),
+               Slot("user", <<"oth", "a">>, G2("s:uo")), Slot("oth", <<"a">>, G2("s:o")),
+               Slot("user", <<"global", "a">>, G2("s:ug"))>>]
+
 \* the same chart under two aliases: each instance has its own section; globals reach both
 ScopeAlias ==
   [name |-> "sa", fixed |-> Own,
@@ -154,11 +164,11 @@ SchemaOff(d) ==
 -----------------------------------------------------------------------------
 QuickShapes == <<Truth2(D5, D4), Truth2d(D3, D4), Truth1(D3, D3), Tags0, CondGlobal,
                  Alias2(D3), PlainAlias(D3), Depth3(D3, D3), Depth3Alias(D3), Depth3Twice(D3),
-                 ScopeG(G4("s:ug"), G3("s:rg"), G3("s:um"), G3("s:m")), ScopeOwn, ScopeAlias, SchemaOff(D3)>>
+                 ScopeG(G4("s:ug"), G3("s:rg"), G3("s:um"), G3("s:m")), ScopeOwn, ScopeBare, ScopeAlias, SchemaOff(D3)>>
 
 ThoroughShapes == <<Truth2(D5, D4), Truth2d(D5, D4), Truth1(D5, D4), Tags0, CondGlobal,
                     Alias2(D4), PlainAlias(D5), Depth3(D3, D5), Depth3Alias(D3), Depth3Twice(D4),
-                    ScopeG(G4("s:ug"), G4("s:rg"), G4("s:um"), G4("s:m")), ScopeOwn, ScopeAlias, SchemaOff(D3)>>
+                    ScopeG(G4("s:ug"), G4("s:rg"), G4("s:um"), G4("s:m")), ScopeOwn, ScopeBare, ScopeAlias, SchemaOff(D3)>>
 
 \* beyond exhaustive reach: everything at once on the depth-3 tree with aliases (sampled with -simulate)
 Wide ==
